@@ -55,6 +55,7 @@ func headerSets(thorough bool) []labelled {
 		{"no-space", []string{"X-A:b"}},
 		{"ignored", []string{"Connection: close"}},
 		{"two", []string{"x-a: B", "X-C: d"}},
+		{"ignored-first", []string{"Connection: close", "X-A: b"}},
 	}
 	if thorough {
 		s = append(s,
